@@ -155,6 +155,8 @@ def execute(kind: str, case: dict, clock: vclock.VClock, shared: dict, policy_ob
                 if s is not None:
                     for _ in range(3):
                         s.yield_point("body")
+                    if case.get("slow"):
+                        s.sleep(0.0025)  # a body that outlasts a couple of poll rounds
                 attempts[iid] = attempts.get(iid, 0) + 1
                 if w == 1 and attempts[iid] == 1:
                     raise RetryError("first attempt")
@@ -365,6 +367,7 @@ def case_strategy():
         "path": st.sampled_from(["call", "call", "percall", "batch"]),
         "waited": st.sampled_from([False, False, True]),
         "purger": st.sampled_from([False, False, True]),
+        "slow": st.sampled_from([False, False, True]),
         "subs": st.lists(sub, min_size=1, max_size=5),
         "runners": runners,
         "policy": st.sampled_from(["rand", "rand", "pct", "np"]),
@@ -440,7 +443,7 @@ REGRESSIONS = [
 # housekeeping while same-key work is in flight: an old final invocation is purged, its key must stay guarded
 for _mode in (1, 2):
     for _ss in range(12):
-        REGRESSIONS.append({"mode": _mode, "reroute": True, "path": "call", "waited": False, "purger": True, "subs": [(1, 0, 0)] * 3,
+        REGRESSIONS.append({"mode": _mode, "reroute": True, "path": "call", "waited": False, "purger": True, "slow": True, "subs": [(1, 0, 0)] * 3,
                             "runners": [("A", 1, 6), ("B", 1, 6)], "policy": "rand", "sseed": _ss})
 
 
